@@ -364,7 +364,7 @@ Proof. unfold is_ws. lia. Qed.
 Definition ssn_loop (b : bytes) : list Z -> Z -> bytes * Z :=
   fix loop2_ (l3_ : list Z) (i4_ : Z) {struct l3_} : bytes * Z :=
     match l3_ with
-    | [] => ([], 0)
+    | [] => (slice_from b (len b), len b)
     | h5_ :: t6_ =>
       if is_ws (at_ b i4_) then loop2_ t6_ (i4_ + 1) else (slice_from b i4_, i4_)
     end.
@@ -373,7 +373,8 @@ Proof. reflexivity. Qed.
 Lemma ssn_loop_spec b : forall rest i, 0 <= i -> slice_from b i = rest ->
   fst (ssn_loop b rest i) = skip_ws rest.
 Proof.
-  induction rest as [|c r IH]; intros i Hi E; [reflexivity|].
+  induction rest as [|c r IH]; intros i Hi E.
+  { cbn [ssn_loop skip_ws fst]. unfold slice_from, len. rewrite Nat2Z.id. apply skipn_all. }
   cbn [ssn_loop skip_ws]. pose proof E as E'. apply sf_cons in E'; [|assumption].
   destruct E' as (E1 & E2 & E3).
   rewrite E2. destruct (is_ws c); [apply IH; [lia|assumption]|]. cbn [fst]. assumption.
